@@ -26,6 +26,8 @@ func runC19(c *fw.Ctx) {
 	r191(c)
 	r192(c)
 	r193(c)
+	r194(c)
+	r195(c)
 }
 
 var hashFuncs = []string{"typeutil:hasher.hash", "typeutil:hasher.hashTuple", "typeutil:hasher.hashUnion", "typeutil:hasher.hashTermSet",
@@ -544,4 +546,128 @@ func tombstoneGuarded(fd *ast.FuncDecl, call *ast.CallExpr) bool {
 		return true
 	})
 	return ok
+}
+
+// R19.4: inside a generic signature, type parameters are hashed by index (identical signatures may name
+// their parameters differently); outside, by identity. The mode flag therefore has to be switched on before
+// ANY component of the generic signature is hashed - constraints included, since a constraint can mention
+// the signature's own parameters ([S ~[]E, E any]). In hasher.hash, in the block that handles a non-empty
+// type parameter list, the store of the flag precedes every recursive hash call of that block.
+func r194(c *fw.Ctx) {
+	const rule = "R19.4"
+	fd, p := needDecl(c, rule, "typeutil:hasher.hash")
+	if fd == nil {
+		return
+	}
+	info := p.TypesInfo
+	isHashCall := func(call *ast.CallExpr) bool {
+		fn, _ := callee(info, call).(*types.Func)
+		return fn != nil && fn.Pkg() == p.Types && strings.HasPrefix(fn.Name(), "hash")
+	}
+	n := 0
+	ast.Inspect(fd.Body, func(m ast.Node) bool {
+		blk, ok := m.(*ast.BlockStmt)
+		if !ok {
+			return true
+		}
+		var flagPos token.Pos
+		for _, st := range blk.List {
+			if as, ok := st.(*ast.AssignStmt); ok && len(as.Lhs) == 1 {
+				if se, ok := unparen(as.Lhs[0]).(*ast.SelectorExpr); ok {
+					if fv, ok := info.Uses[se.Sel].(*types.Var); ok && fv.IsField() && fv.Name() == "inGenericSig" {
+						if v := constOf(info, as.Rhs[0]); v != nil && v.String() == "true" {
+							flagPos = as.Pos()
+						}
+					}
+				}
+			}
+		}
+		if flagPos == token.NoPos {
+			return true
+		}
+		n++
+		first := token.NoPos
+		for _, st := range blk.List {
+			ast.Inspect(st, func(k ast.Node) bool {
+				if call, ok := k.(*ast.CallExpr); ok && isHashCall(call) && (first == token.NoPos || call.Pos() < first) {
+					first = call.Pos()
+				}
+				return true
+			})
+		}
+		c.Check(first == token.NoPos || flagPos < first, rule, sprintf("hash/generic-mode-before-components#%d", n), flagPos,
+			"the by-index mode for type parameters is switched on after a component of the generic signature was already hashed (first hash call at %s): a constraint that mentions the signature's own type parameters is hashed by identity, so identical signatures with renamed parameters hash differently", c.Position(first))
+		return true
+	})
+	// and the flag is consulted where type parameters are hashed
+	c.Floor(rule, "generic-mode switches", n, 1)
+}
+
+// R19.5: a bucket scan that looks for an identical key looks at every entry: the loop may be left early
+// only by returning on a match. Leaving it at the first tombstone (break) lets Set add a second entry for
+// a key that is stored further on in the bucket.
+func r195(c *fw.Ctx) {
+	const rule = "R19.5"
+	for _, name := range []string{"typeutil:(*Map).Set", "typeutil:(*Map).At", "typeutil:(*Map).Delete"} {
+		fd, p := needDecl(c, rule, name)
+		if fd == nil {
+			continue
+		}
+		info := p.TypesInfo
+		nLoops := 0
+		ast.Inspect(fd.Body, func(m ast.Node) bool {
+			rs, ok := m.(*ast.RangeStmt)
+			if !ok {
+				return true
+			}
+			var ident *ast.CallExpr
+			ast.Inspect(rs.Body, func(k ast.Node) bool {
+				if call, ok := k.(*ast.CallExpr); ok && isFunc(callee(info, call), "go/types", "Identical") {
+					ident = call
+				}
+				return true
+			})
+			if ident == nil {
+				return true
+			}
+			nLoops++
+			bad := ""
+			var badPos token.Pos
+			var stack []ast.Node
+			ast.Inspect(rs.Body, func(k ast.Node) bool {
+				if k == nil {
+					stack = stack[:len(stack)-1]
+					return true
+				}
+				stack = append(stack, k)
+				switch x := k.(type) {
+				case *ast.BranchStmt:
+					if x.Tok == token.BREAK || x.Tok == token.GOTO {
+						bad, badPos = "the scan is left by "+x.Tok.String(), x.Pos()
+					}
+				case *ast.ReturnStmt:
+					// must be inside an if whose condition contains the Identical test
+					guarded := false
+					for _, anc := range stack {
+						if is, ok := anc.(*ast.IfStmt); ok && is.Cond.Pos() <= ident.Pos() && ident.End() <= is.Cond.End() && is.Body.Pos() <= x.Pos() && x.End() <= is.Body.End() {
+							guarded = true
+						}
+					}
+					if !guarded {
+						bad, badPos = "the scan returns without a match", x.Pos()
+					}
+				}
+				return true
+			})
+			if badPos == token.NoPos {
+				badPos = rs.Pos()
+			}
+			c.Check(bad == "", rule, strings.TrimPrefix(name, "typeutil:")+"/scan-covers-whole-bucket", badPos,
+				"%s before every entry of the bucket was compared with the key: an identical key stored after that point is not found (Set would add a duplicate, Len/Keys/At disagree)", bad)
+			return true
+		})
+		if nLoops == 0 {
+			c.Undecided(rule, strings.TrimPrefix(name, "typeutil:")+"/scan", fd.Pos(), "no bucket scan with a types.Identical comparison found")
+		}
+	}
 }
